@@ -1,4 +1,5 @@
 import RV.Json
+import RV.Drv.Fault
 import RV.Drv.Arith
 import RV.Model.CtlSts
 import RV.Oracle.CtlSts
@@ -402,6 +403,7 @@ def handle : Handler := fun op inp impl => do
       degTags ++ flip
     return { model := mkObj [("first", verdictOutToJson m1), ("second", optJ verdictOutToJson m2)],
              holds := andAll (one cl i1 ++ crash i1 ++ fb), tags := tags }
+  | "fault" => RV.Drv.Fault.handleFault ["C06", "C07", "C11", "C12"] impl
   | _ => .error s!"ctlsts: unknown op {op}"
 
 end RV.Drv.CtlSts
